@@ -466,3 +466,52 @@ def has_cycle(fn, blocks):
                 color[node] = 2
                 stack.pop()
     return None
+
+
+def default_origins(prog, fn, blocks=None):
+    """constants that stand in for a missing `.orig` in fn (restricted to `blocks`): the argument of `orig().unwrap_or(K)`, the
+    other definition of a u16 local one of whose definitions is the payload of `orig()`, or a constant handed straight to
+    to_be_bytes. Named constants are evaluated from their bodies."""
+    from . import formula
+    from .facts import callee_of, expr_walk, const_int, place_is_local
+
+    def val(e):
+        try:
+            v = formula.evaluate(e, {"prog": prog})
+            return v if isinstance(v, int) else None
+        except Exception:
+            return None
+    out = []
+    live = fn.live_blocks() if blocks is None else (set(blocks) & fn.live_blocks())
+    def from_orig(e):
+        return any(x[0] == "call" and str(x[1]).endswith("Air::orig") for x in expr_walk(e))
+    for b, t, c in fn.calls():
+        if b not in live or not c:
+            continue
+        if c.endswith("Option::<T>::unwrap_or") and from_orig(fn.expr(t["args"][0], 8)):
+            v = val(fn.expr(t["args"][1], 6))
+            if v is not None:
+                out.append(v)
+        if c.endswith("to_be_bytes"):
+            e = fn.expr(t["args"][0], 2)
+            if e[0] in ("const", "uneval"):
+                v = val(e)
+                if v is not None:
+                    out.append(v)
+    for l, ds in fn.defs().items():
+        if len(ds) < 2 or fn.local_ty(l) != "u16":
+            continue
+        exprs = []
+        for kind, db, i, node in ds:
+            if db not in live:
+                exprs = []
+                break
+            exprs.append(fn.rvalue_expr(node["r"], 8) if kind == "stmt" else ("call", callee_of(node), tuple(fn.expr(a, 6) for a in node["args"])))
+        if exprs and any(from_orig(e) for e in exprs):
+            for e in exprs:
+                if not from_orig(e):
+                    v = val(e)
+                    if v is not None:
+                        out.append(v)
+    return out
+
